@@ -17,8 +17,8 @@ type SyncCommitteeMessages map[common.ValidatorIndex]*altair.SyncCommitteeMessag
 func (msgs SyncCommitteeMessages) Select(root common.Root, members []common.ValidatorIndex) []*altair.SyncCommitteeMessage {
 	out := make([]*altair.SyncCommitteeMessage, 0, len(members))
 	for _, vi := range members {
-		msg := msgs[vi]
-		if msg.BeaconBlockRoot == root {
+		msg, ok := msgs[vi]
+		if ok && msg != nil && msg.BeaconBlockRoot == root {
 			out = append(out, msg)
 		}
 	}
